@@ -134,27 +134,49 @@ def ensure(release=False, log=print, std=False, macros=False):
             paths['timings']['vreplay_std_s'] = _run(['cargo', 'build', '--offline', '--bin', 'vreplay', '--features', 'stdw'], vdev, None, 'build of the std-writer replay binary', target='tgt-stable-std')
             with open(stamp + '.std', 'w') as f:
                 f.write(key)
-        if macros and not (os.path.exists(paths['mir_macros']) and os.path.exists(stamp + '.macros') and open(stamp + '.macros').read() == key):
-            # MIR of the proc-macro crate itself (host crate, std): Command::try_from / paths, Tree::insert / insert_at
-            paths['timings']['mir_macros_s'] = _run(['cargo', '+nightly', 'rustc', '--offline', '--lib', '--', '-Zunpretty=mir', '-C', 'debug-assertions=off',
-                                                     '-C', 'overflow-checks=on', '--cfg', 'verif_key="%s"' % key[:16], '-A', 'warnings'],
-                                                    os.path.join(REPO, 'microscpi-macros'), paths['mir_macros'] + '.raw', 'MIR dump of microscpi-macros')
-            txt = open(paths['mir_macros'] + '.raw').read()
-            if len(txt) < 1000:
-                raise BuildError('mir_macros: empty MIR dump')
-            # the host crate prints std paths in full; the engine's models are keyed on the trimmed names a no_std crate prints
-            txt = re.sub(r'\bstd::(ops|default|str|slice|iter|cmp|clone|convert|option|result)::(?=[A-Z])', '', txt)
-            with open(paths['mir_macros'] + '.tmp', 'w') as f:
-                f.write(txt)
-            os.replace(paths['mir_macros'] + '.tmp', paths['mir_macros'])
-            os.remove(paths['mir_macros'] + '.raw')
-            with open(stamp + '.macros', 'w') as f:
-                f.write(key)
+        if macros:
+            _ensure_macros(paths, key, stamp)
         if release and not (os.path.exists(paths['vreplay_release']) and os.path.exists(stamp + '.release') and open(stamp + '.release').read() == key):
             vdev = os.path.join(WORK, 'vdev')
             paths['timings']['vreplay_release_s'] = _run(['cargo', 'build', '--offline', '--release', '--bin', 'vreplay'], vdev, None, 'release build of vreplay')
             with open(stamp + '.release', 'w') as f:
                 f.write(key)
+        return paths
+    finally:
+        fcntl.flock(lock, fcntl.LOCK_UN)
+        lock.close()
+
+
+def _ensure_macros(paths, key, stamp):
+    """MIR of the proc-macro crate itself (host crate, std): Command::try_from / paths, Tree::insert / insert_at"""
+    if os.path.exists(paths['mir_macros']) and os.path.exists(stamp + '.macros') and open(stamp + '.macros').read() == key and not os.environ.get('VERIF_NO_CACHE'):
+        return
+    paths['timings']['mir_macros_s'] = _run(['cargo', '+nightly', 'rustc', '--offline', '--lib', '--', '-Zunpretty=mir', '-C', 'debug-assertions=off',
+                                             '-C', 'overflow-checks=on', '--cfg', 'verif_key="%s"' % key[:16], '-A', 'warnings'],
+                                            os.path.join(REPO, 'microscpi-macros'), paths['mir_macros'] + '.raw', 'MIR dump of microscpi-macros')
+    txt = open(paths['mir_macros'] + '.raw').read()
+    if len(txt) < 1000:
+        raise BuildError('mir_macros: empty MIR dump')
+    # the host crate prints std paths in full; the engine's models are keyed on the trimmed names a no_std crate prints
+    txt = re.sub(r'\bstd::(ops|default|str|slice|iter|cmp|clone|convert|option|result)::(?=[A-Z])', '', txt)
+    with open(paths['mir_macros'] + '.tmp', 'w') as f:
+        f.write(txt)
+    os.replace(paths['mir_macros'] + '.tmp', paths['mir_macros'])
+    os.remove(paths['mir_macros'] + '.raw')
+    with open(stamp + '.macros', 'w') as f:
+        f.write(key)
+
+
+def ensure_macros_only(log=print):
+    """artefacts for checks on the proc-macro crate alone (C14): they must not depend on the generated device crate compiling"""
+    os.makedirs(WORK, exist_ok=True)
+    lock = open(os.path.join(WORK, '.lock'), 'w')
+    fcntl.flock(lock, fcntl.LOCK_EX)
+    try:
+        key = tree_hash()
+        paths = {'mir_macros': os.path.join(WORK, 'mir_macros.txt'), 'key': key, 'timings': {}, 'no_world': True}
+        _ensure_macros(paths, key, os.path.join(WORK, 'stamp'))
+        log(f'[build] MIR of microscpi-macros for tree {key[:12]}' + (f" regenerated in {paths['timings']['mir_macros_s']:.1f}s" if paths['timings'] else ' up to date'))
         return paths
     finally:
         fcntl.flock(lock, fcntl.LOCK_UN)
@@ -168,7 +190,9 @@ def _run(cmd, cwd, out=None, what='', target=None):
     t0 = time.time()
     p = subprocess.run(cmd, cwd=cwd, env=env, stdout=open(out, 'w') if out else subprocess.PIPE, stderr=subprocess.PIPE, text=True)
     if p.returncode != 0:
-        tail = '\n'.join(p.stderr.splitlines()[-40:])
+        lines = p.stderr.splitlines()
+        errs = [i for i, l in enumerate(lines) if l.startswith('error')]
+        tail = '\n'.join(sum((lines[i:i + 14] for i in errs[:3]), [])) if errs else '\n'.join(lines[-40:])
         raise BuildError(f'{what or cmd} failed (exit {p.returncode}):\n{tail}')
     return time.time() - t0
 
